@@ -15,12 +15,101 @@ pub const K_PROPS: u64 = 1; // packet of type `typ` whose property section is ex
 pub const K_WILL_PROPS: u64 = 2; // CONNECT whose will property section is exactly `target` bytes (v5)
 pub const K_UTF8_PAYLOAD: u64 = 3; // v5 PUBLISH flagged UTF-8 with a multi-byte payload of `target` bytes
 
+pub const K_MANY: u64 = 4; // SUBSCRIBE / SUBACK / UNSUBSCRIBE / (v5) UNSUBACK with `target` list entries
+pub const K_MANY_USER: u64 = 5; // v5 packet of type `typ` with `target` (tiny) user properties
+pub const K_MANY_WILL_USER: u64 = 6; // v5 CONNECT whose will carries `target` user properties
+
 pub fn kind_name(k: u64) -> &'static str {
     match k {
         K_PAYLOAD => "sized-payload",
         K_PROPS => "sized-properties",
         K_WILL_PROPS => "sized-will-properties",
+        K_MANY => "many-list-entries",
+        K_MANY_USER => "many-user-properties",
+        K_MANY_WILL_USER => "many-will-user-properties",
         _ => "utf8-flagged-payload",
+    }
+}
+
+/// list lengths around the widths a counter might have (u8, u16) and a few in between
+pub const MANY_COUNTS: [u64; 9] = [255, 256, 257, 1_000, 4_096, 65_535, 65_536, 65_537, 70_001];
+
+fn many_filter(i: usize) -> mqtt_proto::TopicFilter {
+    // distinct, short, valid; every 7th one is shared, every 5th ends in a wildcard
+    let s = match (i % 7, i % 5) {
+        (0, _) => format!("$share/g{}/t/{}", i % 3, i),
+        (_, 0) => format!("t/{}/#", i),
+        (_, 1) => format!("t/+/{}", i),
+        _ => format!("t/{}", i),
+    };
+    std::convert::TryFrom::try_from(s).expect("valid filter")
+}
+
+fn many_user_props(n: usize) -> Vec<v5::UserProperty> {
+    let v = Arc::new("v".to_string());
+    (0..n).map(|i| v5::UserProperty { name: Arc::new(format!("k{}", i % 1000)), value: if i % 2 == 0 { v.clone() } else { Arc::new(String::new()) } }).collect()
+}
+
+pub fn build_v3(kind: u64, typ: usize, n: usize) -> Option<mqtt_proto::v3::Packet> {
+    use mqtt_proto::{v3, Pid, QoS};
+    if kind != K_MANY || n == 0 {
+        return None;
+    }
+    let pid = Pid::try_from(0x1234u16).ok()?;
+    let qos = [QoS::Level0, QoS::Level1, QoS::Level2];
+    let codes = [v3::SubscribeReturnCode::MaxLevel0, v3::SubscribeReturnCode::MaxLevel1, v3::SubscribeReturnCode::MaxLevel2, v3::SubscribeReturnCode::Failure];
+    Some(match typ {
+        7 => v3::Packet::Subscribe(v3::Subscribe::new(pid, (0..n).map(|i| (many_filter(i), qos[i % 3])).collect())),
+        8 => v3::Packet::Suback(v3::Suback::new(pid, (0..n).map(|i| codes[i % 4]).collect())),
+        9 => v3::Packet::Unsubscribe(v3::Unsubscribe::new(pid, (0..n).map(many_filter).collect())),
+        _ => return None,
+    })
+}
+
+fn build_many_v5(kind: u64, typ: usize, n: usize) -> Option<v5::Packet> {
+    use mqtt_proto::{Pid, QoS};
+    let pid = Pid::try_from(0x1234u16).ok()?;
+    match kind {
+        K_MANY => {
+            if n == 0 {
+                return None;
+            }
+            let qos = [QoS::Level0, QoS::Level1, QoS::Level2];
+            let rh = [v5::RetainHandling::SendAtSubscribe, v5::RetainHandling::SendAtSubscribeIfNotExist, v5::RetainHandling::DoNotSend];
+            Some(match typ {
+                7 => v5::Packet::Subscribe(v5::Subscribe::new(
+                    pid,
+                    (0..n)
+                        .map(|i| {
+                            // No-Local on a shared subscription is a protocol error the codec does not police; keep it off there
+                            let f = many_filter(i);
+                            let o = v5::SubscriptionOptions { max_qos: qos[i % 3], no_local: i % 2 == 1 && !f.is_shared(), retain_as_published: i % 4 < 2, retain_handling: rh[(i / 3) % 3] };
+                            (f, o)
+                        })
+                        .collect(),
+                )),
+                8 => v5::Packet::Suback(v5::Suback::new(pid, (0..n).map(|i| gen::SUBACK_REASONS[i % gen::SUBACK_REASONS.len()]).collect())),
+                9 => v5::Packet::Unsubscribe(v5::Unsubscribe::new(pid, (0..n).map(many_filter).collect())),
+                10 => v5::Packet::Unsuback(v5::Unsuback::new(pid, (0..n).map(|i| gen::UNSUBACK_REASONS[i % gen::UNSUBACK_REASONS.len()]).collect())),
+                _ => return None,
+            })
+        }
+        K_MANY_USER => {
+            let mut t = Tape::new(&[]);
+            let mut p = gen::gen_v5_of_type(&mut t, &GenCfg::SMALL, typ).ok()?;
+            *gen::user_props_mut(&mut p)? = many_user_props(n);
+            Some(p)
+        }
+        K_MANY_WILL_USER => {
+            let mut t = Tape::new(&[]);
+            let mut c = gen::gen_v5_connect(&mut t, &GenCfg::SMALL).ok()?;
+            let topic = std::convert::TryFrom::try_from("w/t".to_string()).ok()?;
+            let mut w = v5::LastWill::new(QoS::Level2, topic, bytes::Bytes::from_static(b"bye"));
+            w.properties.user_properties = many_user_props(n);
+            c.last_will = Some(w);
+            Some(v5::Packet::Connect(c))
+        }
+        _ => None,
     }
 }
 
@@ -69,6 +158,9 @@ pub fn build<F: Family>(kind: u64, typ: usize, target: usize) -> Option<F::Packe
 /// v5 only: the sized-properties / will / utf8 constructions
 pub fn build_v5(kind: u64, typ: usize, target: usize) -> Option<v5::Packet> {
     let mut t = Tape::new(&[]);
+    if matches!(kind, K_MANY | K_MANY_USER | K_MANY_WILL_USER) {
+        return build_many_v5(kind, typ, target);
+    }
     match kind {
         K_PROPS => {
             let mut p = gen::gen_v5_of_type(&mut t, &GenCfg::SMALL, typ).ok()?;
@@ -160,6 +252,27 @@ pub fn cases(fam: Fam, thorough: bool) -> Vec<[u64; 3]> {
             v.push([K_UTF8_PAYLOAD, *f, *t]);
         }
     }
+    // long lists: counts around the widths a counter might have
+    let counts: &[u64] = if thorough { &MANY_COUNTS } else { &MANY_COUNTS[..8] };
+    for typ in [7u64, 8, 9, 10] {
+        if typ == 10 && fam == Fam::V3 {
+            continue;
+        }
+        for n in counts {
+            v.push([K_MANY, typ, *n]);
+        }
+    }
+    if fam == Fam::V5 {
+        for typ in [0u64, 1, 2, 3, 6, 7, 8, 9, 10, 13, 14] {
+            let cs: &[u64] = if thorough || matches!(typ, 2 | 9 | 13) { counts } else { &[256, 65_536] };
+            for n in cs {
+                v.push([K_MANY_USER, typ, *n]);
+            }
+        }
+        for n in counts {
+            v.push([K_MANY_WILL_USER, 0, *n]);
+        }
+    }
     v
 }
 
@@ -175,6 +288,9 @@ pub fn from_input<F: Family>(input: &crate::run::Input, ctx: &mut crate::run::Ct
             ctx.label(kind_name(n[0]));
             if n[2] >= 2_097_150 {
                 ctx.label("sized:2MiB-boundary");
+            }
+            if matches!(n[0], K_MANY | K_MANY_USER | K_MANY_WILL_USER) {
+                ctx.label(if n[2] > 65_535 { "list-longer-than-65535" } else if n[2] > 255 { "list-longer-than-255" } else { "list-of-255" });
             }
         }
         None => ctx.label("sized:not-constructible"),
